@@ -38,9 +38,33 @@ func genC02(r *simrt.Rand, tier string, idx int) *hx.Program {
 }
 
 type committedMsg struct {
-	r     *pubRec
-	off   int64
-	epoch uint64
+	r         *pubRec
+	off       int64
+	epoch     uint64
+	raftIndex uint64 // metadata operations committed when the ack left
+}
+
+// c02Cause classifies a committed message missing on a replica by the two ways the code is known
+// to lose one (known findings): the follower's fallback truncation to its own high watermark when it
+// cannot ask its leader, and a replica that is added to the in-sync set by an ISR expansion that was
+// still in flight when the message was committed without it.
+func c02Cause(c *cluster, replica string, m committedMsg) string {
+	shrinks, expands := c.isrChanges(replica)
+	outside := false
+	for _, s := range shrinks {
+		if s <= m.raftIndex {
+			outside = true
+		}
+	}
+	for _, x := range expands {
+		if outside && x > m.raftIndex {
+			return "/replica-added-to-isr-after-the-commit"
+		}
+	}
+	if c.h.logHits["Failed to fetch last offset for leader epoch"] > 0 {
+		return "/after-hw-fallback-truncation"
+	}
+	return ""
 }
 
 func c02Committed(c *cluster) []committedMsg {
@@ -51,7 +75,7 @@ func c02Committed(c *cluster) []committedMsg {
 		}
 		for _, o := range r.acks {
 			if o.ack.AckError == client.Ack_OK && o.leading {
-				out = append(out, committedMsg{r: r, off: o.ack.Offset, epoch: o.epoch})
+				out = append(out, committedMsg{r: r, off: o.ack.Offset, epoch: o.epoch, raftIndex: o.raftIndex})
 				break
 			}
 		}
@@ -143,7 +167,7 @@ func c02Boundary(c *cluster, final bool) {
 				if !ok {
 					got = "<none>"
 				}
-				h.fail("C02/committed", "C02/committed-message-not-on-leader"+tag, "%s leads in epoch %d but holds %q at offset %d; message %s %q was committed there (ALL-policy ack in epoch %d)", v.n.id, v.epoch, trunc([]byte(got), 20), m.off, m.r.cid, trunc([]byte(m.r.value), 20), m.epoch)
+				h.fail("C02/committed", "C02/committed-message-not-on-leader"+c02Cause(c, v.n.id, m), "%s leads in epoch %d but holds %q at offset %d; message %s %q was committed there (ALL-policy ack in epoch %d)", v.n.id, v.epoch, trunc([]byte(got), 20), m.off, m.r.cid, trunc([]byte(m.r.value), 20), m.epoch)
 				return
 			}
 		}
@@ -162,7 +186,7 @@ func c02Boundary(c *cluster, final bool) {
 				if !ok {
 					got = "<none>"
 				}
-				h.fail("C02/committed", "C02/committed-message-not-on-in-sync-replica"+tag, "after convergence in-sync replica %s (hw %d, newest %d) holds %q at offset %d; message %s %q was committed there", v.n.id, v.hw, v.newest, trunc([]byte(got), 20), m.off, m.r.cid, trunc([]byte(m.r.value), 20))
+				h.fail("C02/committed", "C02/committed-message-not-on-in-sync-replica"+c02Cause(c, v.n.id, m), "after convergence in-sync replica %s (hw %d, newest %d) holds %q at offset %d; message %s %q was committed there", v.n.id, v.hw, v.newest, trunc([]byte(got), 20), m.off, m.r.cid, trunc([]byte(m.r.value), 20))
 				return
 			}
 		}
